@@ -440,3 +440,63 @@ Proof.
 Qed.
 
 End FileModel.
+
+(* ================= the class ================= *)
+Definition in_class_file (input : list N) : bool :=
+  match spec_scheme (spec_clean input) with
+  | Some (sch, R) => list_eqb sch str_file && file_class_ok R
+  | None => false
+  end.
+
+(* the one string the host parsers of the two sides are applied to *)
+Definition class_host_text_f (input : list N) : list N :=
+  match spec_scheme (spec_clean input) with
+  | Some (_, R) => file_host_of R
+  | None => []
+  end.
+
+(* a base, if there is one, has the same scheme on the two sides *)
+Definition base_sch_rel (base : option url) (sbase : option spec_url) : Prop :=
+  match base, sbase with
+  | None, None => True
+  | Some b, Some sb => b_scheme b = su_scheme sb
+  | _, _ => False
+  end.
+
+Section Class.
+Variable dbg : bool.
+Variable hp hpo : list N -> result host.
+Variable hd : host -> list N.
+Variable shp : bool -> list N -> option spec_host.
+Variable shs : spec_host -> list N.
+
+(* "file:..." with no base or against a base whose scheme is not file *)
+Theorem class_file base sbase input : usv_list input -> in_class_file input = true ->
+  base_sch_rel base sbase -> no_file_base sbase = true ->
+  host_agree_file hp hd shp shs (class_host_text_f input) ->
+  agree_rel_strict dbg shs (parse_url dbg hp hpo hd None base input) (spec_basic_url_parse shp input sbase).
+Proof.
+  intros Hu Hc Hb Hnf HA. unfold in_class_file, class_host_text_f in *.
+  destruct (spec_scheme (spec_clean input)) as [[sch R]|] eqn:Es; [|discriminate].
+  apply andb_true_iff in Hc. destruct Hc as [Hsch Hok]. apply list_eqb_spec in Hsch. subst sch.
+  pose proof (spec_file_any shp sbase input R Es Hnf) as HS.
+  rewrite spec_clean_is_ntnl_trim in Es.
+  destruct (spec_scheme_model _ _ _ Es) as (rem & Hps & Hrem).
+  destruct (parse_scheme_suffix _ _ _ _ Hps) as [pre0 Hpre].
+  assert (usv_list rem) as Hur.
+  { pose proof (usv_trim input Hu) as Ht. rewrite Hpre in Ht. apply usv_app in Ht. tauto. }
+  rewrite <- Hrem in Hok, HA, HS.
+  pose proof (model_file dbg hp hpo hd shp shs rem Hur Hok HA) as HM.
+  assert (parse_url dbg hp hpo hd None base input = parse_file dbg hp hd None CUrlParser STFile None rem) as ->.
+  { unfold parse_url. rewrite Hps. unfold parse_with_scheme. change (to_u32 (nlen str_file)) with (@POk N 4). cbn [pbind].
+    change (scheme_type_of str_file) with STFile. cbv iota beta.
+    destruct base as [b|]; [|reflexivity]. destruct sbase as [sb|]; [|contradiction Hb]. cbn [base_sch_rel] in Hb.
+    rewrite Hb. unfold no_file_base in Hnf. apply negb_true_iff in Hnf. change s_file with str_file. rewrite Hnf. reflexivity. }
+  destruct (sfile shp u_file0 (ntnl rem)) as [su|].
+  - rewrite HS. cbn [agree_rel_strict]. destruct HM as (u & HO & Rl & Hle).
+    pose proof (related_href dbg shs u su Rl) as Eh. rewrite <- Eh.
+    destruct HO as [[E B]|E]; [left; split; assumption | right; exists u; split; assumption].
+  - destruct HS as [uf ->]. cbn [agree_rel_strict]. exact HM.
+Qed.
+
+End Class.
